@@ -50,6 +50,12 @@ const (
 	// protoFragmentSize int = 65000
 )
 
+// protoOrder maps an identifier to the order value 1..255 used for choosing
+// the TCP link and the receiving queue. Value 0 is reserved (no order)
+func protoOrder(id uint64) uint8 {
+	return uint8(id%255) + 1
+}
+
 //
 // Link/Unlink
 //
